@@ -21,6 +21,7 @@ const (
 	FHookFail       = "hook-fail"
 	FStoreErrBefore = "storage-error-before"
 	FStoreErrAfter  = "storage-error-after"
+	FOob            = "oob" // not a fault of the call itself: an out-of-band actor acts just before this call is served
 )
 
 // Pred selects a seam call by content instead of by position.
@@ -44,6 +45,7 @@ type FaultSpec struct {
 	Code   int    `json:"code,omitempty"`   // HTTP status for reject
 	Sticky bool   `json:"sticky,omitempty"` // the same verb+path keeps failing for the rest of the process
 	Repeat bool   `json:"repeat,omitempty"` // may fire more than once (with Pred)
+	Oob    *OobSpec `json:"oob,omitempty"`  // for kind "oob"
 
 	fired bool
 	seen  int
@@ -59,6 +61,8 @@ func (f *FaultSpec) appliesTo(p *pend) bool {
 		return p.kind == pkWait && p.verb == "WATCH"
 	case FStoreErrBefore, FStoreErrAfter:
 		return p.kind == pkStore
+	case FOob:
+		return true
 	}
 	return false
 }
